@@ -179,7 +179,7 @@ func cmdCheck(args []string) int {
 			}
 			continue
 		}
-		if strings.HasPrefix(name, "H_"+*prop+"_") || (*tier == "thorough" && strings.HasPrefix(name, "HT_"+*prop+"_")) {
+		if strings.HasPrefix(name, "H_"+*prop+"_") || (*tier == "thorough" && strings.HasPrefix(name, "HT_"+*prop+"_")) || (*prop == "MODEL" && strings.HasPrefix(name, "HM_")) {
 			hs = append(hs, fn)
 		}
 	}
@@ -275,6 +275,9 @@ func cmdCheck(args []string) int {
 		nw := 2
 		if *tier == "thorough" {
 			nw = 6
+		}
+		if strings.HasPrefix(h.Name(), "HM_") {
+			nw = 400 // model-conformance harnesses: (up to 400) proved paths are all cross-checked natively
 		}
 		sort.Slice(wit, func(i, j int) bool { return traceStr(wit[i].trace) < traceStr(wit[j].trace) })
 		for i := 0; i < nw && i < len(wit); i++ {
